@@ -1450,6 +1450,19 @@ func lengthAsked(s ssa.Value, b *ssa.BasicBlock) string {
 		}
 		return false
 	}
+	// the calls that produced the buffer (b, err := p.take(2)): a test of their other results is a
+	// question put to the producer
+	producers := map[*ssa.Call]bool{}
+	for r := range roots {
+		switch y := r.(type) {
+		case *ssa.Extract:
+			if call, ok := y.Tuple.(*ssa.Call); ok {
+				producers[call] = true
+			}
+		case *ssa.Call:
+			producers[y] = true
+		}
+	}
 	for _, d := range b.Parent().Blocks {
 		if !d.Dominates(b) || len(d.Instrs) == 0 {
 			continue
@@ -1460,6 +1473,10 @@ func lengthAsked(s ssa.Value, b *ssa.BasicBlock) string {
 		}
 		for v := range backwardSlice(iff.Cond, 300) {
 			switch y := v.(type) {
+			case *ssa.Extract:
+				if call, ok := y.Tuple.(*ssa.Call); ok && producers[call] && call.Call.StaticCallee() != nil && call.Call.StaticCallee().Blocks != nil && load.IsModule(load.FuncPkgPath(call.Call.StaticCallee())) {
+					return "another result of " + calleeName(&call.Call) + ", the library helper that produced the buffer, is tested"
+				}
 			case *ssa.Call:
 				if bi, ok := y.Call.Value.(*ssa.Builtin); ok {
 					if (bi.Name() == "len" || bi.Name() == "cap") && len(y.Call.Args) == 1 && related(y.Call.Args[0]) {
